@@ -21,7 +21,9 @@ from mc.models import ini, legacy
 ID = "C05"
 LEVEL = "model_checking"
 VERSIONS = {"ci": ["0.0", "0.2", "0.3", "0.4", "0.9", "1.0", "1.1"], "im": ["1.0", "1.1"], "rpms": ["0.3", "1.0", "1.1"],
-            "ti": ["0.0", "0.0r", "0.3", "1.0", "1.1"]}          # 0.0r: pre-productmd file whose repository is spelled <dir>/repodata
+            "ti": ["0.0", "0.0r", "0.0a", "0.0b", "0.3", "1.0", "1.1"]}
+# 0.0r: pre-productmd file whose repository is spelled <dir>/repodata; 0.0a / 0.0b: image, stage2 and checksum paths spelled as
+# absolute paths below the tree root "/os/" resp. "/srv/tree/x86_64/os/"
 REQUIRED_OUTCOMES = (["ci:%s:upgraded" % v for v in VERSIONS["ci"]] + ["im:%s:upgraded" % v for v in VERSIONS["im"]] +
                      ["rpms:%s:upgraded" % v for v in VERSIONS["rpms"]] + ["ti:%s:upgraded" % v for v in VERSIONS["ti"]] +
                      ["fixture:treeinfo:upgraded", "fixture:images:upgraded", "fixture:composeinfo:upgraded",
@@ -138,8 +140,8 @@ HACK_NAMES = ("Red Hat Enterprise Linux", "Subscription Asset Manager", "Red Hat
 
 def make_ti(spec, version):
     from mc.checks.c07 import render
-    if version in ("0.0", "0.0r"):
-        return make_ti_00(spec, repodata=version == "0.0r")
+    if version in ("0.0", "0.0r", "0.0a", "0.0b"):
+        return make_ti_00(spec, repodata=version == "0.0r", root={"0.0a": "/os/", "0.0b": "/srv/tree/x86_64/os/"}.get(version))
     text = TI.dumps(TI.build(spec))
     old, _ = legacy.treeinfo(ini.parse(text), version)
     if legacy.vt(version) <= (0, 3) and spec["tree"]["arch"] == "src":
@@ -152,7 +154,7 @@ def make_ti(spec, version):
     return render(old), TI.expected_observation(spec)
 
 
-def make_ti_00(spec, repodata=False):
+def make_ti_00(spec, repodata=False, root=None):
     """A pre-productmd tree: only the compatibility section and the image / stage2 / checksum sections, bare digests,
     media numbers in [general].  Only shapes that format can express: one childless top-level variant without a dash, plain
     paths of the main kinds, names without per-product hacks."""
@@ -173,6 +175,8 @@ def make_ti_00(spec, repodata=False):
         return None
     if spec["base_product"] or any(t not in ("md5", "sha1", "sha256") for t, _ in spec["checksums"].values()):
         return None
+    if root and (spec.get("raw_checksums") or not (spec["images"] or spec["checksums"] or any(spec["stage2"].values()))):
+        return None
     text = TI.dumps(TI.build(spec))
     doc = ini.parse(text)
     out = []
@@ -182,12 +186,14 @@ def make_ti_00(spec, repodata=False):
             if repodata:
                 opts = [(k, (val.rstrip("/") + "/repodata") if k == "repository" else val) for k, val in opts]
             if spec["media"]:
-                opts += [("discnum", str(spec["media"]["discnum"])), ("totaldiscs", str(spec["media"]["totaldiscs"]))]
+                opts += [("discnum", str(spec["media"]["discnum"]))]
+                if spec["media"]["totaldiscs"] != spec["media"]["discnum"]:          # (a lone discnum means "n of n")
+                    opts += [("totaldiscs", str(spec["media"]["totaldiscs"]))]
             out.append((sec, opts))
         elif sec.startswith("images-") or sec == "stage2":
-            out.append((sec, opts))
+            out.append((sec, [(k, (root + val) if root else val) for k, val in opts]))
         elif sec == "checksums":
-            out.append((sec, [(k, val.split(":", 1)[1]) for k, val in opts]))
+            out.append((sec, [((root + k) if root else k, val.split(":", 1)[1]) for k, val in opts]))
     exp = TI.expected_observation(spec)
     exp["release"]["short"] = "Fedora" if name == "Fedora" else ""      # the one per-product rule kept in the alphabet
     exp["release"]["is_layered"] = False
